@@ -47,7 +47,7 @@ fn rule_body(lang: &str) -> &'static str {
   }
 }
 
-const DIRS: &[&str] = &["", "src/", "src/deep/", "lib/", "lib/v2/", "test/"];
+const DIRS: &[&str] = &["", "src/", "src/deep/", "lib/", "lib/v2/", "test/", "app/[id]/", "app/i/"];
 const NAMES: &[&str] = &["a", "b", "index", "main", "util"];
 /// foreign extensions mapped by languageGlobs, and unmapped ones
 const FOREIGN: &[&str] = &["vue", "jsy", "pyx", "txt", "md"];
@@ -55,6 +55,8 @@ const FOREIGN: &[&str] = &["vue", "jsy", "pyx", "txt", "md"];
 const GLOBS: &[&str] = &[
   "**/*.js", "**/*.ts", "**/*.py", "**/*.rs", "**/*.go", "**/*.html", "src/**", "lib/**", "test/**", "src/**/*.js", "lib/**/*.py", "src/deep/**", "src/a.js", "lib/b.ts", "**/index.*", "**/main.*",
   "*.{js,ts}", "**/*.{py,rs}", "src/[ab]*", "**/[!a]*.go", "src/*.js", "*.py", "lib/*", "**/util.?s", "**/v2/**", "src/deep/a.js", "*/a.*",
+  // escaped metacharacters (a directory named `[id]`) next to the unescaped class
+  "app/\\[id\\]/**", "**/\\[id\\]/*.js", "app/[id]/**", "app/\\[*", "app/**/\\?.js", "**/a\\.*",
 ];
 
 #[derive(Clone, Debug)]
@@ -70,7 +72,7 @@ pub struct Choice {
 pub fn strategy() -> BoxedStrategy<Choice> {
   let globs = || prop::collection::vec(0u8..GLOBS.len() as u8, 1..=2);
   (
-    prop::collection::vec((0u8..6, 0u8..5, 0u8..11), 3..16),
+    prop::collection::vec((0u8..8, 0u8..5, 0u8..11), 3..16),
     prop::collection::vec((0u8..6, 0u8..7, prop::option::weighted(0.5, globs()), prop::option::weighted(0.35, globs())), 1..7),
     prop::collection::vec((0u8..5, 0u8..8), 0..=2),
     prop::option::weighted(0.3, 0u8..5),
@@ -175,6 +177,11 @@ pub fn glob_to_regex(glob: &str) -> regex::Regex {
       i += 2;
     } else {
       match b[i] {
+        // a backslash makes the next character literal
+        '\\' if i + 1 < b.len() => {
+          re.push_str(&regex::escape(&b[i + 1].to_string()));
+          i += 1;
+        }
         '*' => re.push_str(".*"),
         '?' => re.push('.'),
         '{' => re.push_str("(?:"),
